@@ -85,7 +85,7 @@ PROPS = {
              "answer is an integer tuple that extends to a solution; non-trivial = >1 solution or >=1 answer; distinct = distinct case lines",
         trusted=SEARCH_TRUST,
         assumptions=[],
-        open=["GLOBAL invariant through the re-entrant propagation loop (every posted constraint is stored, in flight or entailed; domains only shrink; no stored constraint is ground at an answer) is NOT yet a theorem: the end-to-end statement is carried by the model/implementation correspondence and the brute-force oracle", "distinctfd ground-exactness is covered by the correspondence only"],
+        open=["the global exactness theorems (C16_state_sound, C17_no_solution_lost) cover every constraint kind except distinctfd / distinctfd2: for those the end-to-end statement is carried by the correspondence and the brute-force oracle", "`no stored constraint is ground at an answer` (an answer state is closed) and the assembly of labelling + reification into the reported answer are carried by the correspondence"],
     ),
     "C17": dict(
         title="CLP(FD) labelling completeness and uniqueness",
@@ -94,7 +94,7 @@ PROPS = {
              "disjunction path it satisfies; non-trivial = >1 solution or >=1 answer; distinct = distinct case lines",
         trusted=SEARCH_TRUST,
         assumptions=[],
-        open=["GLOBAL invariant through the re-entrant propagation loop (every posted constraint is stored, in flight or entailed; domains only shrink; no stored constraint is ground at an answer) is NOT yet a theorem: the end-to-end statement is carried by the model/implementation correspondence and the brute-force oracle", "distinctfd ground-exactness is covered by the correspondence only"],
+        open=["the global exactness theorems (C16_state_sound, C17_no_solution_lost) cover every constraint kind except distinctfd / distinctfd2: for those the end-to-end statement is carried by the correspondence and the brute-force oracle", "`no stored constraint is ground at an answer` (an answer state is closed) and the assembly of labelling + reification into the reported answer are carried by the correspondence"],
     ),
     "C19": dict(
         title="CLP(Z) plusz/timesz",
@@ -105,7 +105,7 @@ PROPS = {
              "exact, no panic, at most one answer); non-trivial = the equations have a solution or the goal failed; distinct = distinct case lines",
         trusted=COMMON_TRUST,
         assumptions=["operands are numbers or variables (the constructors assert this; other kinds are C23's malformed stream)"],
-        open=["a global theorem for arbitrary interleavings of several constraints (C19_chain) is carried by the correspondence: every posting order is run"],
+        open=[],
     ),
     "C03": dict(
         title="reification (closed answers, shared _ variables, relevant constraints)",
@@ -129,7 +129,7 @@ PROPS = {
              "model; non-trivial = >=2 answers; distinct = distinct case lines",
         trusted=SEARCH_TRUST,
         assumptions=[],
-        open=["conjunct reordering for FD atoms rests on the open global FD invariant (C16/C17); carried by the correspondence and the oracle",
+        open=["conjunct reordering for distinctfd atoms (outside the fragment of C04_fd_conj_comm) is carried by the correspondence and the oracle",
               "lifting C04_tree from atom lists to conjunctions nested in conde/fresh uses the path decomposition, checked by the oracle only"],
     ),
     "C09": dict(
